@@ -5,10 +5,10 @@ PART 1 (namespace `Qbice.CoreFw`): the extended core engine model (all five kind
 design; `Model/EngineCore.lean`, second half).  The `log` field of the state records every executor
 invocation.  Proved under `Shape p` = `NoProjOverProj p ∨ StaticProj p` (no projection reads a
 projection, or every projection has a value-independent read sequence; see `Props/C01.lean`); the
-statement for all programs is `C03_exec_justified_full_statement`.  A third reason for an execution exists — a
-projection re-executed by the backward projection of a firewall / projection below it (finding
-F13's looseness: the stored value of that callee changed at some point since the projection's last
-run, or — `f1r` — its firewall set did; it need not differ from the value the projection observed).
+statement for all programs is `C03_exec_justified_full_statement`.  Since the repair of finding F13
+(the `BackwardProjectionPropagation` caller repairs a projection like a pedantic query caller instead
+of re-executing it unconditionally) there is no third reason for an execution: a projection, too, runs
+only if never computed or if a dependency it read has a different value now.
 
 PART 2 (namespace `Qbice.Core`): the same theorems for the firewall-free core model, unchanged.
 -/
@@ -17,39 +17,44 @@ import QbiceVerif.Lemmas.EngineCoreEx
 namespace Qbice.CoreFw
 open Qbice.Core (Prog Err Write SetRes Op OpOut Ref Sat)
 
-/-- the statement for all five kinds, exactly as the engine behaves: in a state reached by a history,
-    every executor invocation of a user query is (1) a first computation, or (2) the node recorded a
-    dependency whose from-scratch value is no longer the observed one, or (3) the node is a PROJECTION
-    that recorded a firewall / projection callee whose backward projection was pending when the query
-    began or became pending during it (its stored value, or its firewall set, changed) -/
+/-- the statement for all five kinds: in a state reached by a history, every executor invocation of a
+    user query is (1) a first computation, or (2) the node recorded a dependency whose from-scratch
+    value is no longer the observed one — backward projection included -/
 def C03_exec_justified_full_statement : Prop :=
   ∀ (p : Program), WF p → ∀ (ops : List Op) (outs : List OpOut) (s0 : St),
     runOps p ops {} = .ok (outs, s0) →
     ∀ (k fuel : Nat) (v : Val) (s' : St), k < fuel →
       query p fuel .user k { s0 with log := [] } = .ok (v, s') →
       ∀ x, x ∈ s'.log → s0.nodes x = none ∨
-        (∃ n d o, s0.nodes x = some n ∧ (d, o) ∈ n.deps ∧ cur p s0 d ≠ some o) ∨
-        Forced { s0 with log := [] } s' x
+        ∃ n d o, s0.nodes x = some n ∧ (d, o) ∈ n.deps ∧ cur p s0 d ≠ some o
 
 /-- "an executor is re-run only if the key was never computed or one of the dependencies it read in
     its previous run now has a different value": every key appended to the log by a successful query
     of the user either has no node in the start state, or its node recorded a dependency `(d, o)`
-    whose from-scratch value on the committed inputs is no longer `o` — firewalls included: a
-    firewall whose recomputation returns the stored value lets nothing above it run.
+    whose from-scratch value on the committed inputs is no longer `o` — firewalls included (a firewall
+    whose recomputation returns the stored value lets nothing above it run), projections re-run by
+    backward projection included (finding F13 repaired).
     PARTIAL: `Shape p` = no projection over a projection, or all projections static. -/
 theorem core_exec_justified_partial {p : Program} (wf : WF p) (sh : Shape p) {s : St} (inv : Inv p s)
     {k fuel : Nat} (hk : k < fuel) {v : Val} {s' : St} (h : query p fuel .user k s = .ok (v, s')) :
     ∃ new, s'.log = s.log ++ new ∧
       ∀ x, x ∈ new → s.nodes x = none ∨
-        (∃ n d o, s.nodes x = some n ∧ (d, o) ∈ n.deps ∧ cur p s d ≠ some o) ∨ Forced s s' x := by
+        ∃ n d o, s.nodes x = some n ∧ (d, o) ∈ n.deps ∧ cur p s d ≠ some o := by
   obtain ⟨_, f, _⟩ := (query_spec wf sh hk inv).ok h
   obtain ⟨new, h1, _, h3, _⟩ := f.log
-  refine ⟨new, h1, fun x hx => ?_⟩
-  rcases (h3 x hx).1 with hj | hf
-  · rcases hj.2 with h0 | h0
-    · exact Or.inl h0
-    · exact Or.inr (Or.inl h0)
-  · exact Or.inr (Or.inr hf)
+  exact ⟨new, h1, fun x hx => (h3 x hx).1.2⟩
+
+/-- non-vacuity, the shape of finding F13 (A → B → A with B never observed by the projection): the
+    projection 3 of `exD` observed firewall 2 = 1; the firewall changes to 0 on behalf of a fresh root
+    (key 4: no backward projection), then back to 1; the user's next query of key 4 performs the
+    pending backward projection of the firewall: the projection is REPAIRED (its observation is
+    current) and NOT re-executed — only the firewall and key 4 run; before the repair of F13 the
+    executions of that round were `[2, 3, 4]` -/
+example : WF exD ∧ Shape exD ∧ (runOps exD [.sess [.set 0 1, .set 1 5], .round [3], .sess [.set 0 0],
+      .round [4], .sess [.set 0 1], .round [4], .round [3]] {}).toOption.map (·.1) =
+    some [.sess [.fresh, .fresh], .round [10] [2, 3], .sess [.updated], .round [5] [2, 4],
+      .sess [.updated], .round [6] [2, 4], .round [10] []] :=
+  ⟨exD_wf, Or.inl exD_pf, by decide⟩
 
 /-- class B (static projection chains), restated -/
 theorem core_exec_justified_classB_partial {p : Program} (wf : WF p) (sp : StaticProj p) {s : St}
@@ -57,7 +62,7 @@ theorem core_exec_justified_classB_partial {p : Program} (wf : WF p) (sp : Stati
     (h : query p fuel .user k s = .ok (v, s')) :
     ∃ new, s'.log = s.log ++ new ∧
       ∀ x, x ∈ new → s.nodes x = none ∨
-        (∃ n d o, s.nodes x = some n ∧ (d, o) ∈ n.deps ∧ cur p s d ≠ some o) ∨ Forced s s' x :=
+        ∃ n d o, s.nodes x = some n ∧ (d, o) ∈ n.deps ∧ cur p s d ≠ some o :=
   core_exec_justified_partial wf (Or.inr sp) inv hk h
 
 /-- non-vacuity of class B: the chain of three projections `exS` after the firewall changed: every
@@ -76,10 +81,7 @@ theorem core_exec_once_partial {p : Program} (wf : WF p) (sh : Shape p) {s : St}
         ∃ n', s'.nodes x = some n' ∧ n'.lastVerified = s'.epoch := by
   obtain ⟨_, f, _⟩ := (query_spec wf sh hk inv).ok h
   obtain ⟨new, h1, h2, h3, _⟩ := f.log
-  refine ⟨new, h1, h2, fun x hx => ⟨?_, (h3 x hx).2⟩⟩
-  rcases (h3 x hx).1 with h | h
-  · exact h.1
-  · exact h.1
+  exact ⟨new, h1, h2, fun x hx => ⟨(h3 x hx).1.1, (h3 x hx).2⟩⟩
 
 /-- "an external-input executor runs on first demand and under `refresh`, never otherwise".
     PARTIAL (first half): `Shape p`. -/
@@ -103,11 +105,9 @@ theorem core_external_only_on_demand_or_refresh_partial {p : Program} (wf : WF p
       rw [hp] at hp'; cases hp'
       rw [(hleaf (Or.inr (by rw [← hk', hd]))).1] at hm
       cases hm
-    rcases (h3 x hx).1 with hj | ⟨_, n, fk, o, hn, _, hm, _⟩
-    · rcases hj.2 with h0 | ⟨n, dd, o, hn, hm, _⟩
-      · exact h0
-      · exact (noDeps n dd o hn hm).elim
-    · exact (noDeps n fk o hn hm).elim
+    rcases (h3 x hx).1.2 with h0 | ⟨n, dd, o, hn, hm, _⟩
+    · exact h0
+    · exact (noDeps n dd o hn hm).elim
   · intro ws rs s' h
     obtain ⟨_, _, _, _, _, _, hl⟩ := session_spec inv h
     exact hl
@@ -137,17 +137,10 @@ theorem core_rounds_exec_once_partial {p : Program} (wf : WF p) (sh : Shape p) {
     (h : runRounds p kss s = .ok (outs, s')) :
     ∃ new, s'.log = s.log ++ new ∧ new.Nodup ∧
       ∀ x, x ∈ new → (¬ ∃ n, s.nodes x = some n ∧ n.lastVerified = s.epoch) ∧
-        (s.nodes x = none ∨ (∃ n d o, s.nodes x = some n ∧ (d, o) ∈ n.deps ∧ cur p s d ≠ some o) ∨
-          Forced s s' x) := by
+        (s.nodes x = none ∨ ∃ n d o, s.nodes x = some n ∧ (d, o) ∈ n.deps ∧ cur p s d ≠ some o) := by
   obtain ⟨_, _, f⟩ := (runRounds_spec wf sh kss s inv).ok h
   obtain ⟨new, h1, h2, h3, _⟩ := f.log
-  refine ⟨new, h1, h2, fun x hx => ?_⟩
-  rcases (h3 x hx).1 with hj | hf
-  · refine ⟨hj.1, ?_⟩
-    rcases hj.2 with h0 | h0
-    · exact Or.inl h0
-    · exact Or.inr (Or.inl h0)
-  · exact ⟨hf.1, Or.inr (Or.inr hf)⟩
+  exact ⟨new, h1, h2, fun x hx => (h3 x hx).1⟩
 
 example : Inv exF exFU ∧
     (runRounds exF [[5, 4], [3, 5, 5]] { exFU with log := [] }).toOption.map (·.2.log) = some [2, 3, 4, 5] :=
